@@ -609,6 +609,15 @@ theorem void_overwrite_keeps_old_value :
     valueUpdRT shipped gobLib .ptr false (.cont (some [2])) (.cont none) = .ok (.cont (some [2])) ∧
     valueUpdRT shipped gobLib .u8 true (.num 255) (.num 0) = .ok (.num 255) := by decide
 
+/-- Profile models keep one treasure per field.  A field that became empty between two saves is removed when it is
+    tagged `deletable` (it reads back as its zero value), and — as documented — LEFT IN PLACE when it is only tagged
+    `omitempty`: the old value is read back. -/
+theorem profile_field_update :
+    profileUpdRT { shipped with voidClearsContent := true } gobLib .u8 true true (.num 255) (.num 0) = .ok (.num 0) ∧
+    profileUpdRT { shipped with voidClearsContent := true } gobLib .u8 true false (.num 255) (.num 0) = .ok (.num 255) ∧
+    profileUpdRT { shipped with voidClearsContent := true } gobLib .ptr false false (.cont (some [2])) (.cont none) = .ok (.cont none) ∧
+    profileUpdRT { shipped with voidClearsContent := true } gobLib .u8 false false (.num 255) (.num 0) = .ok (.num 0) := by decide
+
 theorem refutes_void_keeps (cfg : SdkValues.Cfg) (ht : tableOK cfg = true) (h : cfg.voidClearsContent = false) : ¬ Holds cfg := by
   intro hh
   have hv := hh .ptr false (.cont none) (Or.inr (Or.inr ⟨rfl, by simp⟩)) (by decide) (by intro s; simp)
@@ -650,6 +659,10 @@ structure Facts where
   emptyLenZero : Tri
   emptyNegZero : Tri
   voidClearsContent : Tri
+  -- structural shapes (tested against a table of expected outcomes, not modelled)
+  bodySkipsUnexported : Tri
+  profileSkipsUnexported : Tri
+  dashIsSkip : Tri
   deriving Repr
 
 def cfgOf (f : Facts) : Cfg :=
